@@ -48,6 +48,8 @@ pub mod verif_coarse
             {
                 let f = fs();
                 kani::cover!(f.n_renames >= 1, "a target was restored from the cache and then re-hashed");
+                assert!(!f.m_c07_cache_misfiled, "[C18][C07] coarse clock: a displaced target was filed in the cache under the hash of other content");
+                assert!(!f.m_c08_lost, "[C18][C08] coarse clock: content present before the step is neither at a target nor in the cache");
                 let mut i = 0;
                 while i < ntargets
                 {
